@@ -53,6 +53,12 @@ def direct(ctx, nb, zero, targets_kind, b, df=0.25, deprecated=False, default_ta
         targets = [nz[0], nz[len(nz) // 2], nz[-1]]
     elif targets_kind == 'inside':
         targets = [nz[0] * 1.37, (nz[0] + nz[-1]) / 2.0 + 0.013, nz[-1] * 0.93]
+    elif targets_kind == 'ulp':
+        # targets one unit in the last place away from a Fourier frequency (a grid computed by another formula, e.g.
+        # rfftfreq vs arange/(n dt)): the quotient f/fc is not 1 but may round to it, and log10 f - log10 fc may be 0
+        import math as _m
+        targets = [_m.nextafter(nz[0], _m.inf), _m.nextafter(nz[len(nz) // 2], 0.0), _m.nextafter(nz[-1], _m.inf),
+                   _m.nextafter(_m.nextafter(nz[-1], 0.0), 0.0)]
     elif targets_kind == 'outside':
         targets = [nz[0] * 0.31, nz[-1] * 2.9]
     else:
@@ -182,6 +188,9 @@ def obligations(tier, seed):
     yield Ob('direct', {'nb': 4, 'zero': True, 'targets_kind': 'on', 'b': 40, 'deprecated': True})
     yield Ob('direct', {'nb': 4, 'zero': True, 'targets_kind': 'on', 'b': 40, 'default_targets': True})
     yield Ob('direct', {'nb': 3, 'zero': False, 'targets_kind': 'on', 'b': 20, 'df': 0.1})
+    for nb, df in ((4, 0.1), (5, 0.3), (9, 1.0 / 3.0), (6, 0.25)):
+        for b in (40, 188.5):
+            yield Ob('direct', {'nb': nb, 'zero': nb % 2 == 0, 'targets_kind': 'ulp', 'b': b, 'df': df}, query_ms=60000)
     for npts, targets in ((4, [0.5, 1.0, 1.3]), (7, [1.0, 0.7, 1.5]), (8, [0.5, 1.5])):
         yield Ob('object_path', {'npts': npts, 'targets': targets}, query_ms=60000, timeout_s=600)
     for m in ((1, 2, 4, 6) if q else (1, 2, 4, 6, 7)):
